@@ -354,6 +354,29 @@ func (c *Ctx) Extra(k string, v interface{}) {
 	c.mu.Unlock()
 }
 
+func (c *Ctx) ExtraGet(k string) interface{} {
+	c.mu.Lock()
+	defer c.mu.Unlock()
+	return c.extra[k]
+}
+
+// ExtraMax keeps the maximum of a numeric extra.
+func (c *Ctx) ExtraMax(k string, v int64) {
+	c.mu.Lock()
+	defer c.mu.Unlock()
+	switch old := c.extra[k].(type) {
+	case int64:
+		if old >= v {
+			return
+		}
+	case float64:
+		if int64(old) >= v {
+			return
+		}
+	}
+	c.extra[k] = v
+}
+
 // Floor: an observed counter that must reach min for the run to be conclusive
 // (e.g. "comment writes faulted" in C16). Ignored while replaying.
 func (c *Ctx) Floor(counter string, min int64) { c.floors[counter] = min }
